@@ -420,6 +420,7 @@ Fixpoint set_nth_gen (l : list gen) (j : nat) (it : interest) (m : mode) : list 
 Definition do_setint (s : st) (h : N) (j : nat) (it : interest) (m : mode) : st :=
   match objs s h with
   | Some ob =>
+      if negb (o_ext ob) then emit s (op_line OP_SETINT h RInvalid) else
       if is_running s h then panic s P_BORROW else
       match o_src ob with
       | SComp lc own subs => emit (set_obj_src s h (SComp lc own (set_nth_gen subs j it m))) (op_line OP_SETINT h ROk)
@@ -430,6 +431,7 @@ Definition do_setint (s : st) (h : N) (j : nat) (it : interest) (m : mode) : st 
 Definition do_setdl (s : st) (h : N) (dl : Z) : st :=
   match objs s h with
   | Some ob =>
+      if negb (o_ext ob) then emit s (op_line OP_SETDL h RInvalid) else
       if is_running s h then panic s P_BORROW else
       match o_src ob with
       | STimer t => emit (set_obj_src s h (STimer (mkTimer (tm_reg t) (Some dl)))) (op_line OP_SETDL h ROk)
@@ -510,8 +512,12 @@ Definition do_dropsender (s : st) (c : N) : st :=
   | None => s
   end.
 
-Definition do_idle (s : st) (i : N) : st := set_idles s (idles s ++ [i]).
-Definition do_cancelidle (s : st) (i : N) : st := set_idle_cancelled s (fupd (idle_cancelled s) i true).
+Definition do_idle (s : st) (i : N) : st := set_idle_cancelled (set_idles s (idles s ++ [i])) (fupd (idle_cancelled s) i false).
+Definition IDLE_BASE : N := 1000000.
+(* Idle::cancel borrows the idle's cell mutably: cancelling the idle whose callback is running panics *)
+Definition do_cancelidle (s : st) (i : N) : st :=
+  if is_running s (IDLE_BASE + i) then panic s P_BORROW
+  else set_idle_cancelled s (fupd (idle_cancelled s) i true).
 
 Definition exec_action (s : st) (a : action) : st :=
   if halted s then s else
@@ -542,7 +548,6 @@ Definition exec_action (s : st) (a : action) : st :=
 Definition exec_actions (s : st) (l : list action) : st := fold_left exec_action l s.
 
 (* ================= event processing ================= *)
-Definition IDLE_BASE : N := 1000000.
 Definition scripts := N -> list script.
 Definition bscripts := N -> list N.
 Definition default_script : script := mkScript [] 0 0%Z.
@@ -789,8 +794,9 @@ Fixpoint run_idles (scr : scripts) (s : st) (l : list N) : st :=
       else if idle_cancelled s i then run_idles scr s r
       else
         let sc := nth O (scr (IDLE_BASE + i)) default_script in
-        let s1 := emit s (L T_IDLE [zN i]) in
-        run_idles scr (exec_actions s1 (sc_acts sc)) r
+        let s1 := set_running (emit s (L T_IDLE [zN i])) (Some (IDLE_BASE + i)) in
+        let s2 := exec_actions s1 (sc_acts sc) in
+        if halted s2 then s2 else run_idles scr (set_running s2 None) r
   end.
 
 Definition DISP_OK := 0%Z. Definition DISP_ERR := 1%Z.
